@@ -386,7 +386,8 @@ func (e *ksEnv) runReset(t *testing.T, op KSOp, ch sim.Chooser, now func() int, 
 	chClosed := false
 	// concurrent puts: up to two, of keys outside the new set (and one inside)
 	putPlan := [][]int{}
-	for i := 0; i < 12 && len(putPlan) < 2; i++ {
+	outside := []int{}
+	for i := 0; i < 12; i++ {
 		in := false
 		for _, k := range op.Keys {
 			if k == i {
@@ -394,8 +395,18 @@ func (e *ksEnv) runReset(t *testing.T, op KSOp, ch sim.Chooser, now func() int, 
 			}
 		}
 		if !in {
-			putPlan = append(putPlan, []int{i})
+			outside = append(outside, i)
 		}
+	}
+	// the first put carries one key, or several (more than twice the reset buffer's capacity in some scenarios:
+	// its keys then enter the buffer in several portions, the last of which may still be waiting for room when
+	// the reset completes)
+	n1 := []int{1, 3, 5}[int(uint64(e.sc.Seed)>>7)%3]
+	if n1 > len(outside)-1 {
+		n1 = len(outside) - 1
+	}
+	if n1 >= 1 {
+		putPlan = append(putPlan, append([]int{}, outside[:n1]...), []int{outside[n1]})
 	}
 	if len(op.Keys) > 0 {
 		putPlan = append(putPlan, []int{op.Keys[0]})
